@@ -1351,6 +1351,9 @@ pub fn configs(prop: SProp, tier: Tier) -> Vec<SCfg> {
                                 [HKind::DropAfter(0), HKind::DropIfr, HKind::Run],
                             ] {
                                 for pol in [[true, true, true], [true, false, true], [false, false, false]] {
+                                    if !thorough && rb == 2 && (pol[1] || kinds[0] != HKind::Run) {
+                                        continue;
+                                    }
                                     // three requests, then their ids reused (slot reuse)
                                     let mut reqs = Vec::new();
                                     for i in 0..6usize {
